@@ -490,7 +490,7 @@ func c13DrawDoc(rt *rapid.T, corp *gen.Corpus) c13Doc {
 	case 2:
 		return c13Doc{Kind: "dsl", Text: gen.Mutate(rt, rapid.SampledFrom(all).Draw(rt, "corpusDoc"), all, 2)}
 	case 3, 4:
-		m := gen.DSLModel(rt, gen.DSLOpts{Rich: true, Conditions: true, MaxTypes: 3, MaxRels: 3})
+		m := gen.DSLModel(rt, gen.DSLOpts{Rich: true, Conditions: true, MaxTypes: 3, MaxRels: 3, Scale: true})
 		return c13Doc{Kind: "dsl", Text: gen.Render(m, &rapidChooser{t: rt}, gen.RenderOpts{}).Text}
 	case 5:
 		return c13Doc{Kind: "module", Text: gen.Mutate(rt, rapid.SampledFrom(corp.Modules).Draw(rt, "moduleDoc"), corp.Modules, 1)}
